@@ -19,6 +19,7 @@ package main
 
 import (
 	"context"
+	"errors"
 	"fmt"
 	"math/bits"
 	"os"
@@ -494,12 +495,19 @@ func (g *gen) history1(kind string) []op {
 func main() { initCands(); vlib.Run("C16", run) }
 
 func run(c *vlib.Ctx) {
-	c.Rule("case = configuration (width 8..1024, estimation mode, threshold within +-4 units of the final set's size or at +-1 entry, MaxLinks in {0,|S|-1,|S|,|S|+1}, global or per-directory threshold, CID v0/v1, mode/mtime) + final set S of 0..10 entries (names with murmur3 prefix collisions, 1..300 B; 6 child forms with CID 6..68 B) reached by 4-5 histories; each history is checked after every op (root type vs rule, settings) and at its end (root CID vs independent canonical root); strata: hamt-pure (no switching, free detours), dyn-count (estimation disabled, free detours), dyn-grow (size modes, never shrinks while sharded), dyn-bounce (excursions = add+remove of one name), dyn-shrink (size modes, free detours: known findings are classified here); distinct = FNV of config+all op lists; non-trivial = >=3 histories of the case reached S with different op lists, at least one containing a removal, and at least one history changed representation (basic<->HAMT) on the way (for hamt-pure: a removal next to a name sharing its first-level bucket)")
+	c.Rule("case = configuration (width 8..1024, estimation mode, threshold within +-4 units of the final set's size or at +-1 entry, MaxLinks in {0,|S|-1,|S|,|S|+1}, global or per-directory threshold, CID v0/v1, mode/mtime) + final set S of 0..10 entries (names with murmur3 prefix collisions, 1..300 B; 6 child forms with CID 6..68 B) reached by 4-5 histories; each history is checked after every op (root type vs rule, settings) and at its end (root CID vs independent canonical root); strata: hamt-pure (no switching, free detours), dyn-count (estimation disabled, free detours), dyn-grow (size modes, never shrinks while sharded), dyn-bounce (excursions = add+remove of one name), dyn-shrink (size modes, free detours: known findings are classified here); dyn-fault (all modes, clean history kinds, DAGService.Add fails during PRNG-chosen AddChild calls, 2/3 of the calls that cross the threshold/MaxLinks: after the failed call entries, root type vs rule, root CID vs canonical root of the unchanged set and settings are checked, then the op is re-issued); distinct = FNV of config+all op lists; non-trivial = >=3 histories of the case reached S with different op lists, at least one containing a removal, and at least one history changed representation (basic<->HAMT) on the way (for hamt-pure: a removal next to a name sharing its first-level bucket)")
 	c.Cases("hamt-pure", c.N(160, 2400), func(k *vlib.Case) { oneCase(k, "hamt-pure") })
 	c.Cases("dyn-count", c.N(160, 2400), func(k *vlib.Case) { oneCase(k, "dyn-count") })
 	c.Cases("dyn-grow", c.N(160, 2400), func(k *vlib.Case) { oneCase(k, "dyn-grow") })
 	c.Cases("dyn-bounce", c.N(160, 2400), func(k *vlib.Case) { oneCase(k, "dyn-bounce") })
 	c.Cases("dyn-shrink", c.N(160, 2400), func(k *vlib.Case) { oneCase(k, "dyn-shrink") })
+	// dyn-fault: clean history kinds in all three estimation modes over a DAG
+	// service whose Add/AddMany fail during PRNG-chosen AddChild calls
+	// (preferably the call that crosses the threshold / MaxLinks limit). A
+	// failed call must leave the entry set, the representation demanded by the
+	// rule and the canonical root CID of the unchanged set; the op is then
+	// re-issued without the fault so that the history still ends in S.
+	c.Cases("dyn-fault", c.N(200, 3000), func(k *vlib.Case) { oneCase(k, "dyn-fault") })
 }
 
 func oneCase(k *vlib.Case, stratum string) {
@@ -510,6 +518,8 @@ func oneCase(k *vlib.Case, stratum string) {
 	switch stratum {
 	case "dyn-count":
 		cf.mode = uio.SizeEstimationDisabled
+	case "dyn-fault":
+		cf.mode = uio.SizeEstimationMode(r.Intn(3))
 	default:
 		cf.mode = uio.SizeEstimationMode(r.Intn(2))
 	}
@@ -616,6 +626,8 @@ func oneCase(k *vlib.Case, stratum string) {
 		kinds = []string{"perm", "grow", "grow", "grow"}
 	case "dyn-bounce":
 		kinds = []string{"perm", "bounce", "bounce", "grow"}
+	case "dyn-fault":
+		kinds = []string{"perm", "grow", "bounce", "grow"}
 	}
 	// plus the sorted fresh build through the same implementation
 	distinctLists := map[string]bool{}
@@ -688,6 +700,31 @@ func mtimeSec(t time.Time) int64 {
 	return t.Unix()
 }
 
+// faultDS fails Add/AddMany while armed (a write fault of the block store).
+type faultDS struct {
+	ipld.DAGService
+	armed bool
+	fired int
+}
+
+var errInjected = errors.New("verif: injected DAGService.Add failure")
+
+func (f *faultDS) Add(ctx context.Context, nd ipld.Node) error {
+	if f.armed {
+		f.fired++
+		return errInjected
+	}
+	return f.DAGService.Add(ctx, nd)
+}
+
+func (f *faultDS) AddMany(ctx context.Context, nds []ipld.Node) error {
+	if f.armed {
+		f.fired++
+		return errInjected
+	}
+	return f.DAGService.AddMany(ctx, nds)
+}
+
 // hist runs one history on a fresh directory.
 type hist struct {
 	k       *vlib.Case
@@ -741,6 +778,13 @@ func (h *hist) runOps(ops []op, lg int) bool {
 	k, cf := h.k, h.cf
 	ctx := context.Background()
 	var err error
+	plainDS := h.ds
+	var fds *faultDS
+	if h.stratum == "dyn-fault" {
+		fds = &faultDS{DAGService: h.ds}
+		h.ds = fds
+		defer func() { h.ds = plainDS }()
+	}
 	if cf.pure {
 		h.dir, err = uio.NewHAMTDirectory(h.ds, 0, append(cf.statOpts(), uio.WithMaxHAMTFanout(cf.width))...)
 	} else {
@@ -760,8 +804,28 @@ func (h *hist) runOps(ops []op, lg int) bool {
 	h.cur = set{}
 	isHamt := cf.pure
 	pad := cf.pad()
-	for i, o := range ops {
-		k.Logf("  %s#%d %s", h.label, i, o)
+	retry := false // the previous attempt of ops[i] failed by an injected fault
+	for i := 0; i < len(ops); i++ {
+		o := ops[i]
+		inject := false
+		if fds != nil && !o.remove && !retry {
+			after := set{}
+			for n, c := range h.cur {
+				after[n] = c
+			}
+			after[o.name] = o.ch
+			if !cf.rule(h.cur) && cf.rule(after) {
+				inject = k.R.Chance(2, 3) // the call that crosses the threshold / MaxLinks
+			} else {
+				inject = k.R.Chance(1, 8)
+			}
+		}
+		retry = false
+		if inject {
+			k.Logf("  %s#%d %s  [DAGService.Add fails during this call]", h.label, i, o)
+		} else {
+			k.Logf("  %s#%d %s", h.label, i, o)
+		}
 		old, existed := h.cur[o.name]
 		if o.remove && !existed {
 			panic("generator produced a removal of a missing name")
@@ -788,15 +852,32 @@ func (h *hist) runOps(ops []op, lg int) bool {
 		}
 
 		completedOp := false
-		if !vlib.Guard(k, "op", 60*time.Second, func() {
+		if inject {
+			fds.armed, fds.fired = true, 0
+		}
+		guardOK := vlib.Guard(k, "op", 60*time.Second, func() {
 			if o.remove {
 				err = h.dir.RemoveChild(ctx, o.name)
 			} else {
 				err = h.dir.AddChild(ctx, o.name, o.ch.nd)
 			}
 			completedOp = true
-		}) || !completedOp {
+		})
+		if fds != nil {
+			fds.armed = false
+		}
+		if !guardOK || !completedOp {
 			return false
+		}
+		if inject && err != nil && fds.fired > 0 {
+			// the write fault made the call fail: nothing may have changed
+			k.C.Count("faulted_ops", 1)
+			if !h.checkAfterFailedOp(i, o, isHamt, plainDS) {
+				return false
+			}
+			retry = true
+			i-- // re-issue the same operation without the fault
+			continue
 		}
 		if err != nil {
 			k.Fail("op-error/"+map[bool]string{true: "remove", false: "add"}[o.remove], "operation succeeds", "nil", err.Error())
@@ -899,6 +980,73 @@ func (h *hist) runOps(ops []op, lg int) bool {
 		isHamt = nowHamt
 	}
 	return true
+}
+
+// checkAfterFailedOp: an AddChild that returned an error (injected write
+// fault) must have left the directory exactly as it was: same entries, the
+// representation the rule demands for them, the canonical root of that set
+// and the configured settings.
+func (h *hist) checkAfterFailedOp(i int, o op, wasHamt bool, plainDS ipld.DAGService) bool {
+	k, cf := h.k, h.cf
+	where := fmt.Sprintf("after failed %s#%d %s", h.label, i, o)
+	ok := true
+	// entries
+	links, err := h.dir.Links(context.Background())
+	if err != nil {
+		k.Fail("fault/links-error", "Links succeeds after a failed AddChild", "nil", err.Error())
+		return false
+	}
+	got := map[string]cid.Cid{}
+	for _, l := range links {
+		got[l.Name] = l.Cid
+	}
+	same := len(got) == len(h.cur)
+	for n, c := range h.cur {
+		if g, in := got[n]; !in || !g.Equals(c.c) {
+			same = false
+		}
+	}
+	if !same {
+		k.Fail("fault/entries-changed/failed-addchild", "a failed AddChild leaves the entry set unchanged", fmt.Sprintf("%d entries as before", len(h.cur)), fmt.Sprintf("%d entries %s", len(got), where))
+		return false // the model cannot follow
+	}
+	// representation and root CID of the unchanged set
+	gotCid, nowHamt, err := h.root()
+	if err != nil {
+		k.Fail("getnode-error", "GetNode succeeds", "nil", err.Error())
+		return false
+	}
+	k.C.Count("rule_checks", 1)
+	want := cf.rule(h.cur)
+	if nowHamt != want {
+		k.Fail("fault/type-rule/failed-addchild/"+transition(wasHamt, nowHamt), "root is HAMT iff the documented rule says so (entry set unchanged by the failed call)",
+			fmt.Sprintf("hamt=%v", want), fmt.Sprintf("hamt=%v %s; size=%d threshold=%d entries=%d maxLinks=%d", nowHamt, where, cf.sizeOf(h.cur), cf.thresh, len(h.cur), cf.maxLinks))
+		ok = false
+	}
+	wantCid, wantHamt := cf.canonical(plainDS, h.cur)
+	if !gotCid.Equals(wantCid) {
+		feat := "same-type"
+		if nowHamt != wantHamt {
+			feat = "type-differs"
+		}
+		k.Fail("fault/root-cid/"+feat+"/failed-addchild", "root CID == canonical root of the (unchanged) entry set",
+			fmt.Sprintf("%s (hamt=%v)", wantCid, wantHamt), fmt.Sprintf("%s (hamt=%v) %s", gotCid, nowHamt, where))
+		ok = false
+	}
+	// settings
+	wantT := 0
+	if cf.perDir {
+		wantT = cf.thresh
+	}
+	if g := h.dir.GetHAMTShardingSize(); g != wantT {
+		k.Fail("fault/threshold-lost/failed-addchild", "per-directory sharding size stays in force", fmt.Sprint(wantT), fmt.Sprintf("%d %s", g, where))
+		ok = false
+	}
+	if g := h.dir.GetMaxLinks(); g != cf.maxLinks {
+		k.Fail("fault/maxlinks-lost/failed-addchild", "MaxLinks stays in force", fmt.Sprint(cf.maxLinks), fmt.Sprintf("%d %s", g, where))
+		ok = false
+	}
+	return ok
 }
 
 func transition(was, now bool) string {
